@@ -244,12 +244,16 @@ fn run_d<const D: usize>(cfg: &Cfg, rng: &mut Rng, out: &mut Out) {
                 let _ = t.remove_cells_by_keys(&[*ck]);
                 if t.number_of_cells() == 0 { continue; }
                 n += 1;
-                let dt = DelaunayTriangulation::<FastKernel<f64>, tri::VData, tri::CData, D>::from_tds_with_topology_guarantee(t, FastKernel::new(), tri::guarantee(*g));
-                let mut ids = Ids::default();
-                out.case(&format!("r{D}_{bi}_{ci}"), "cx", &format!("D={D} fam={fam} g={g} expect=none faults=remove_cell_clean"));
-                tri::export(&dt, &mut ids, out);
-                tri::observe_validators(&dt, out, false);
-                out.end();
+                // the same damaged structure under EVERY guarantee: which Level-3 clauses run
+                // depends on it (the closed-boundary clause must run under all three)
+                for gg in 0..3usize {
+                    let dt = DelaunayTriangulation::<FastKernel<f64>, tri::VData, tri::CData, D>::from_tds_with_topology_guarantee(t.clone(), FastKernel::new(), tri::guarantee(gg));
+                    let mut ids = Ids::default();
+                    out.case(&format!("r{D}_{bi}_{ci}_g{gg}"), "cx", &format!("D={D} fam={fam} g={gg} expect=none faults=remove_cell_clean"));
+                    tri::export(&dt, &mut ids, out);
+                    tri::observe_validators(&dt, out, false);
+                    out.end();
+                }
             }
         }
         // pairs of faults on small instances
@@ -291,12 +295,14 @@ fn run_d<const D: usize>(cfg: &Cfg, rng: &mut Rng, out: &mut Out) {
             let _ = t.remove_cells_by_keys(&[*ck]);
             if t.number_of_cells() == 0 { continue; }
             n += 1;
-            let dt = DelaunayTriangulation::<FastKernel<f64>, tri::VData, tri::CData, D>::from_tds_with_topology_guarantee(t, FastKernel::new(), tri::guarantee(g));
-            let mut ids = Ids::default();
-            out.case(&format!("rx{D}_{xi}_{ci}"), "cx", &format!("D={D} fam=general g={g} expect=none faults=remove_cell_clean"));
-            tri::export(&dt, &mut ids, out);
-            tri::observe_validators(&dt, out, false);
-            out.end();
+            for gg in 0..3usize {
+                let dt = DelaunayTriangulation::<FastKernel<f64>, tri::VData, tri::CData, D>::from_tds_with_topology_guarantee(t.clone(), FastKernel::new(), tri::guarantee(gg));
+                let mut ids = Ids::default();
+                out.case(&format!("rx{D}_{xi}_{ci}_g{gg}"), "cx", &format!("D={D} fam=general g={gg} expect=none faults=remove_cell_clean"));
+                tri::export(&dt, &mut ids, out);
+                tri::observe_validators(&dt, out, false);
+                out.end();
+            }
         }
     }
     let _ = n;
